@@ -24,11 +24,11 @@
 #include "verif.h"
 #include "gen_qmail-qmqpd.c"
 
-#ifndef N
-#define N 12
-#endif
 #ifdef TEMPLATE
 #include "qmqp_template.h"
+#endif
+#ifndef N
+#define N 12
 #endif
 #define MAXR (N / 3 + 1)
 #define AMAX (N + 1)
@@ -290,7 +290,7 @@ void vmain(void)
   sym_inputs();
   ASSUME(qstatus <= 2 && open_fails <= 1 && chdir_fails <= 1);
 #ifdef TEMPLATE
-  template_fill();
+  template_fill(in);
 #endif
   ref_parse();
   if (R.status == 2) {
